@@ -175,7 +175,7 @@ class C01(Check):
                 qi = [float(tb.flow[k, tb.lcol[l]]) for l in ins[name]]
                 qo = [float(tb.flow[k, tb.lcol[l]]) for l in outs[name]]
                 leak_on = name in frm["leak"]
-                rp = {"spec": spec, "node": name, "t": t}
+                rp = {"spec": spec.get("_origin", spec), "node": name, "t": t}
                 flagged = kind == "junction" and name in frm["iso_j"]
                 if flagged:
                     ctx.count("junction_flagged_isolated")  # judged like every other junction: 0 = 0 + 0 there
@@ -232,8 +232,8 @@ class C01(Check):
         failures, broken = [], []
         batch = Batch()
         for spec in specs:
+          for spec, cap in C.run_all(wntr, spec):
             C.count_features(ctx, spec)
-            cap = C.run_sim_capture(wntr, spec)
             self._judge(ctx, spec, cap, batch, failures, broken)
             if len(ctx.samples) < 4 and cap["res"] is not None:
                 ctx.sample({"nodes": len(spec["nodes"]), "links": [(l["name"], C.link_kind(l), l["start"], l["end"]) for l in spec["links"]][:8],
@@ -254,7 +254,7 @@ class C01(Check):
         broken += C.zoo_agreement(ctx, wntr, "C01DD", self.info["DD"]["names"], "DD", "default", npts, lambda mbc, lc: mbc)
         broken += C.zoo_agreement(ctx, wntr, "C01PDD", self.info["PDD"]["names"], "PDD", "default", npts, lambda mbc, lc: mbc)
         corpus = [c["spec"] for _, c in vlib.corpus_items(self.pid) if "spec" in c]
-        specs = corpus + C.reversal_specs(ctx, 10 if ctx.quick else 80) + C.gen_specs(ctx, 30 if ctx.quick else 400, 24 if ctx.quick else 72)
+        specs = corpus + C.edit_between_runs_specs(ctx, 6 if ctx.quick else 36) + C.reversal_specs(ctx, 10 if ctx.quick else 80) + C.gen_specs(ctx, 30 if ctx.quick else 400, 24 if ctx.quick else 72)
         broken += self._static_rows(ctx, wntr, specs[: (24 if ctx.quick else 200)])
         f, b = self._run_specs(ctx, wntr, specs)
         failures += f
